@@ -5,5 +5,9 @@ pub mod ledger;
 pub mod report;
 pub mod rng;
 pub mod comps;
+pub mod access;
 pub mod model;
 pub mod eng_world;
+pub mod eng_storage;
+pub mod eng_saveload;
+pub mod eng_dispatch;
